@@ -409,5 +409,7 @@ def _check(ctx: Ctx) -> None:
 
 
 def _extra(ctx):
+    from ..engines import keykind as _kk
+    _kk.check_function(ctx, "AbsoluteSequence.get_message_pairings", "KEY", expect_min=2)
     from ..engines.structure import interleave_rule
     interleave_rule(ctx)
